@@ -19,7 +19,7 @@ def S(stream, checker, quick, thorough, **kw):
 PROPS = {
     "C18": dict(
         layer="graph",
-        streams=[S("dijk", "check_dijk_all", 400, 12000), S("dijkneg", "check_dijkneg_all", 250, 6000)],
+        streams=[S("dijk", "check_dijk_all", 400, 12000), S("hist", "check_hist_all", 150, 4000), S("dijkneg", "check_dijkneg_all", 250, 6000)],
         witness=[],
         nontrivial_rule="at least two vertices reachable from the source by a path of length >= 1",
         explanation="Theorem C18/C18_total (proofs/C18Dijkstra*.v): for every well-formed graph, non-negative weights, total weight < 2^63-1, every source and EVERY admissible pop sequence, distances are exact, predecessor chains are real shortest walks, unreachable vertices keep infinity and no predecessor. Correspondence: random digraphs (<=12 vertices, weight classes incl. 0, ~2e9, ~2^40; stream dijkneg also negative weights and sums beyond int64) replayed with the recorded pop sequence; distTo, edgeTo and EdgeToPath must equal the model's; the C18 predicate is also evaluated on the implementation's output against a Bellman-Ford reference.",
@@ -58,7 +58,7 @@ PROPS.update({
         assumptions=["type universe of the harness: 6 concrete types, 2 interfaces (one implementing the other)", "names/subtypes are ASCII identifiers"]),
     "C02": dict(layer=RES,
         streams=[S("call", "run_prop CFids P02", 500, 16000), S("once", "run_prop CFids P02", 200, 6000),
-                 S("malformed", "run_prop CFids P02", 150, 4000), S("call", "run_prop CPanic P02", 200, 4000, variant="nat")],
+                 S("malformed", "run_prop CFids P02", 150, 4000), S("built", "run_prop CFids P02", 200, 6000), S("call", "run_prop CPanic P02", 200, 4000, variant="nat")],
         witness=[W("TestD3", "D3")],
         nontrivial_rule="at least two function executions in the history",
         explanation="Theorem C02 (proofs/C0213Unsat*.v): if the target is not derivable (AND-OR derivability over the full call graph; memoized run-once functions count as providers, the documented FuncOnce semantics) the call is an error, the target does not run, and when every converter is satisfiable the error is the unsatisfied-argument error. Correspondence: outcome class, error identity and ordered (function, error) trace.",
@@ -73,6 +73,7 @@ PROPS.update({
     "C04": dict(layer=RES,
         streams=[S("call", "run_prop CFids P04", 500, 16000), S("built", "run_prop CFids P04", 200, 6000),
                  S("convert", "run_prop CFids P04", 150, 4000), S("once", "run_prop CFids P04", 150, 4000),
+                 S("redefine", "run_prop2 CFids 4", 200, 6000), S("conconce", "check_conconce_all", 20, 300, variant="race"),
                  S("call", "run_prop CPanic P04", 200, 4000, variant="nat")],
         witness=[],
         nontrivial_rule="at least two function executions in the history",
@@ -140,7 +141,7 @@ PROPS.update({
 PROPS.update({
     "C13": dict(layer=RES,
         streams=[S("call", "run_prop CFull P13", 500, 16000), S("malformed", "run_prop CFull P13", 150, 4000),
-                 S("once", "run_prop CFids P13", 150, 4000), S("call", "run_prop CPanic P13", 200, 4000, variant="nat")],
+                 S("once", "run_prop CFids P13", 150, 4000), S("built", "run_prop CFids P13", 150, 4000), S("call", "run_prop CPanic P13", 200, 4000, variant="nat")],
         witness=[],
         nontrivial_rule="at least two function executions in the history or an unsatisfied-argument outcome",
         explanation="Theorem C13 (proofs/C0213Unsat*.v), no extra hypothesis: when some requirement of the target is hopeless (not OR-reachable from the supplied values) the call fails at graph construction with the unsatisfied-argument error whose missing list contains it, contains only pruned requirements of the target that are neither derivable nor exactly supplied, whose input list is the supplied values and whose converter list contains every supplied converter. Correspondence: errors.As, the three lists as sets (converter types in order), and that the message mentions each missing argument.",
